@@ -20,6 +20,7 @@ import xml.etree.ElementTree as ET
 VERIF = os.path.dirname(os.path.dirname(os.path.abspath(__file__)))
 SEEDED = os.path.join(VERIF, "seeded")
 PY = "/venv/bin/python"
+REPO = os.environ.get("SEED_REPO", "/repo")     # a scratch worktree of /repo HEAD may stand in (development only)
 
 
 def sh(cmd, cwd=None, env=None, timeout=3600):
@@ -105,18 +106,18 @@ def check(name):
     with open(os.path.join(d, "meta.json")) as f:
         meta = json.load(f)
     pid = meta["property"]
-    rc, out = sh("git status --porcelain", cwd="/repo")
-    assert out.strip() == "", "/repo not clean: " + out
-    rc, out = sh(f"git apply {os.path.join(d, 'patch.diff')}", cwd="/repo")
+    rc, out = sh("git status --porcelain", cwd=REPO)
+    assert out.strip() == "", REPO + " not clean: " + out
+    rc, out = sh(f"git apply {os.path.join(d, 'patch.diff')}", cwd=REPO)
     assert rc == 0, out
     try:
-        ev = "/tmp/seed_ev"
-        rc_all, out_all = sh(f"./check all --evidence-dir {ev}", cwd=VERIF, env={"LXS_NO_REPLAY": "1"})
-        rc_th, out_th = sh(f"./check {pid} --tier thorough --evidence-dir {ev}", cwd=VERIF, env={"LXS_NO_SELFTEST": "1", "LXS_NO_REPLAY": "1"})
+        ev = "/tmp/seed_ev" + str(os.getpid())
+        rc_all, out_all = sh(f"./check all --repo {REPO} --evidence-dir {ev}", cwd=VERIF, env={"LXS_NO_REPLAY": "1"})
+        rc_th, out_th = sh(f"./check {pid} --tier thorough --repo {REPO} --evidence-dir {ev}", cwd=VERIF, env={"LXS_NO_SELFTEST": "1", "LXS_NO_REPLAY": "1"})
     finally:
-        sh("git checkout -- .", cwd="/repo")
-        sh("rm -f sim.vcd", cwd="/repo")
-        shutil.rmtree("/tmp/seed_ev", ignore_errors=True)
+        sh("git checkout -- .", cwd=REPO)
+        sh("rm -f sim.vcd", cwd=REPO)
+        shutil.rmtree(ev, ignore_errors=True)
     fired = sorted(set(re.findall(r"VIOLATION property=(C\d\d)", out_all)))
     errs = sorted(set(re.findall(r"ANALYSIS-ERROR property=(C\d\d)", out_all)))
     th_fired = "VIOLATION" in out_th
